@@ -87,6 +87,13 @@ func (w *watches) watchesInDir(path string) []string {
 	return l
 }
 
+func (w *watches) isUserWatch(path string) bool {
+	w.mu.RLock()
+	defer w.mu.RUnlock()
+	_, ok := w.byUser[path]
+	return ok
+}
+
 // Mark path as added by the user.
 func (w *watches) addUserWatch(path string) {
 	w.mu.Lock()
@@ -523,7 +530,9 @@ func (w *kqueue) readEvents() {
 
 			event := w.newEvent(path.name, path.linkName, mask)
 
+			wasUser := false
 			if event.Has(Rename) || event.Has(Remove) {
+				wasUser = w.watches.isUserWatch(event.Name)
 				w.remove(event.Name, false)
 				w.watches.markSeen(event.Name, false)
 				if path.isDir && event.Has(Rename) && !event.Has(Remove) {
@@ -573,6 +582,12 @@ func (w *kqueue) readEvents() {
 					path := filepath.Clean(event.Name)
 					if fi, err := os.Lstat(path); err == nil {
 						err := w.sendCreateIfNew(path, fi)
+						if _, ok := w.watches.byPath(path); ok && wasUser {
+							// The file that took the place of the one the user
+							// watched is watched in its stead: keep listing
+							// it, so that the watch can be found and removed.
+							w.watches.addUserWatch(path)
+						}
 						if !w.sendError(err) {
 							return
 						}
